@@ -56,10 +56,15 @@ PInfo == [a |-> [ty |-> "float", lo |-> 0, hi |-> 200, write |-> TRUE,  needscfg
           h1 |-> [ty |-> "float", lo |-> 0, hi |-> 200, write |-> TRUE, needscfg |-> FALSE],
           h2 |-> [ty |-> "float", lo |-> 0, hi |-> 200, write |-> TRUE, needscfg |-> FALSE]]
 LimTy(p) == IF PInfo[p].ty \in {"float", "int"} THEN PInfo[p].ty ELSE "int"     \* type of the limits of p
-ModProps == {"mp", "op", "export"}         \* export = FALSE: the module and all its parameters are hidden
+ModProps == {"mp", "op", "export", "omit_unchanged_within"}    \* export = FALSE: the module and its parameters are hidden
+(* omit_unchanged_within: minimum time between updates of an unchanged value, for every parameter without an  *)
+(* own setting; 0 is a legal value ("never drop an update") and must be APPLIED like any other; when it is   *)
+(* not configured the general default of the server applies (0.1 s).  Windows are counted in 1/10 s.         *)
+GeneralWindow == 1
 MInfo == [mp |-> [ty |-> "int",   lo |-> 0, hi |-> 10, mandatory |-> TRUE],
           op |-> [ty |-> "float", lo |-> 0, hi |-> 20, mandatory |-> FALSE],
-          export |-> [ty |-> "bool", lo |-> 0, hi |-> 1, mandatory |-> FALSE]]
+          export |-> [ty |-> "bool", lo |-> 0, hi |-> 1, mandatory |-> FALSE],
+          omit_unchanged_within |-> [ty |-> "float", lo |-> 0, hi |-> 100000, mandatory |-> FALSE]]
 MainPar == "value"                         \* the main value: its (configurable) unit is the module's main unit,
 ClassMainUnit == 2                         \* ('K')  which replaces '$' in the units of the other parameters
 DollarParams == {"n"}                      \* parameters declared with unit '$'
@@ -145,6 +150,8 @@ Allowed(cfg) == IF Failing(cfg) # {} \/ Missing(cfg) # {} THEN {"rejected"}
 Valued(cfg) == {p \in Params : Has(cfg, p, "value")}
 Defaulted(cfg) == {p \in Params : Has(cfg, p, "default") /\ ~Has(cfg, p, "value")}
 MainUnit(cfg) == IF Has(cfg, MainPar, "unit") THEN Get(cfg, MainPar, "unit").n ELSE ClassMainUnit
+Window(cfg) == IF Has(cfg, "omit_unchanged_within", "value")
+               THEN Get(cfg, "omit_unchanged_within", "value").n * 5 ELSE GeneralWindow      \* (half units -> 1/10 s)
 ModExported(cfg) == IF Has(cfg, "export", "value") THEN Get(cfg, "export", "value").n = 1 ELSE TRUE
 Constd(cfg) == {p \in Params : Has(cfg, p, "constant")} \cup DOMAIN ClassConst
 ConstOf(cfg, p) == IF Has(cfg, p, "constant") THEN Conv(PInfo[p].ty, Get(cfg, p, "constant")) ELSE ClassConst[p]
@@ -177,7 +184,11 @@ Exp(cfg) ==
    exported |-> [p \in Params |-> Flag(cfg, p, "export", TRUE) /\ ModExported(cfg)],
    probes   |-> [p \in Params |-> ProbePoints(EffLo(cfg, p), EffHi(cfg, p))],
    writes   |-> [p \in WriteSet(cfg) |-> Conv(PInfo[p].ty, Get(cfg, p, "value"))],
-   mprops   |-> [q \in {r \in ModProps : Has(cfg, r, "value")} |-> Conv(MInfo[q].ty, Get(cfg, q, "value"))]]
+   mprops   |-> [q \in {r \in ModProps : Has(cfg, r, "value")} |-> Conv(MInfo[q].ty, Get(cfg, q, "value"))],
+   \* Applied(omit_unchanged_within): the window every parameter gets, and its effect: an unchanged value announced
+   \* again after 0.01 s and once more 0.3 s after the first reaches the dispatcher iff the window has passed
+   window   |-> [p \in Params |-> Window(cfg)],
+   repeat   |-> <<Window(cfg) = 0, Window(cfg) <= 3>>]
 
 (* first demand an observed accepted state st breaks, "" if none.  st has the fields of Exp   *)
 (* over all parameters; probes are any points with the observed verdict.                       *)
@@ -195,6 +206,8 @@ StateViol(cfg, st) ==
             st.probes[p][j].ok # (x.lo[p] <= st.probes[p][j].n /\ st.probes[p][j].n <= x.hi[p]) THEN "range check uses the configured limits"
   ELSE IF "writes" \in DOMAIN st /\ (\E p \in DOMAIN x.writes : p \notin DOMAIN st.writes) THEN "configured value registered for writing"
   ELSE IF \E q \in DOMAIN x.mprops : st.mprops[q] # x.mprops[q] THEN "module property"
+  ELSE IF \E p \in Params : st.window[p] # x.window[p] THEN "Applied(omit_unchanged_within): parameter window"
+  ELSE IF st.repeat # x.repeat THEN "Applied(omit_unchanged_within): repeated update"
   ELSE ""
 
 (* several configuration files: the first definition of a module name wins, modules taken  *)
